@@ -38,6 +38,7 @@ def kind_records(writer, wvar):
 
 
 def run(ctx):
+    _scope_rule(ctx)
     ctx.rule("C16.R1", "every IR instruction class that can occur in a block is written and read", floor=18)
     ctx.rule("C16.R2", "per record kind: keys written = keys read", floor=60)
     ctx.rule("C16.R3", "each key read reaches the constructor parameter of the field it was written from", floor=25)
@@ -156,3 +157,20 @@ def run(ctx):
         if rn:
             names = {n for kind, n in tables.sink_of(project, rf, rn[0]) if kind in ("param", "attr")}
             ctx.ob("C16.R3", F + ":construct_variable", "variable key %r reaches ir.Variable.%s" % (key, field), field in names, construct="sink:variable:" + key, detail=str(sorted(names)))
+
+
+def _scope_rule(ctx):
+    """name resolution must search the innermost scope first (locals shadow
+    module-level names) and define into the innermost scope"""
+    import ast as _a
+    from ..core import norm as _n, walk_no_nested as _w
+    rid = "C16.R9"
+    ctx.rule(rid, "value names resolve innermost scope first; definitions go to the innermost scope", floor=2)
+    lk = ctx.fn("ppci/irutils/io.py", "DictReader.get_value_ref")
+    loops = [x for x in _w(lk) if isinstance(x, _a.For) and "scopes" in _n(x.iter)]
+    ok = bool(loops) and _n(loops[0].iter) in ("reversed(self.scopes)", "self.scopes[::-1]")
+    ctx.ob(rid, "ppci/irutils/io.py:DictReader.get_value_ref", "lookup walks the scope stack from the innermost scope outwards", ok, construct="innermost-first", detail=_n(loops[0].iter) if loops else "no loop over scopes")
+    df = ctx.fn("ppci/irutils/io.py", "DictReader.register_value")
+    st = [x for x in _w(df) if isinstance(x, _a.Assign) and "value_map" in _n(x.targets[0])]
+    ok = bool(st) and _n(st[0].targets[0]).startswith("self.scopes[-1].value_map[")
+    ctx.ob(rid, "ppci/irutils/io.py:DictReader.register_value", "a new value is defined in the innermost scope", ok, construct="define-innermost")
